@@ -623,7 +623,146 @@ More2 == <<
     [EchoTkn |-> Tk("echo"), Exprs |-> Sq(<<Heredoc("HEREDOC_START", <<HdText, StrDim(IdxNum), HdText, StrDim(IdxStr("NUMSTR_HEX")), HdText>>)>>), SemiColonTkn |-> TkG(";", "LN")])
 >>
 
-Variants == Binaries \o Assigns \o Unaries \o Atoms \o Others \o Statements \o More \o Heredocs \o Decls \o More2
+\* ---------------------------------------------------------------- productions the first groups never reached
+\* (found with the rule coverage of the real grammars recorded in evidence/C03.json)
+
+IdentRes == Nd("Identifier", [IdentifierTkn |-> Tk("IDENT_RES"), Value |-> Vl("IdentifierTkn")])     \* a (semi-)reserved word as a member name
+StaticBin(id, kind, op, l) == V(id, kind, {"scalar"}, "both", l, FALSE, [Left |-> Ch("scalar", l), OpTkn |-> Tk(op), Right |-> Ch("scalar", l + 1)])
+StaticBinN(id, kind, op, l) == V(id, kind, {"scalar"}, "both", l, FALSE, [Left |-> Ch("scalar", l + 1), OpTkn |-> Tk(op), Right |-> Ch("scalar", l + 1)])
+EncVar(fill) == Nd("ScalarEncapsedStringVar", fill)
+VarName == Nd("Identifier", [IdentifierTkn |-> TkG("IDENT", "LR"), Value |-> Vl("IdentifierTkn")])
+
+More3 == <<
+  \* keywords as member names: after "->" every label is a name (both grammars); after "::" and in declarations from PHP 7 on
+  V("ExprPropertyFetch/reserved", "ExprPropertyFetch", {"expr", "var", "deref"}, "both", L.atom, FALSE,
+    [Var |-> Ch("deref", 0), ObjectOperatorTkn |-> TkG("->", "R"), Prop |-> IdentRes]),
+  V("ExprMethodCall/reserved", "ExprMethodCall", {"expr", "deref"}, "both", L.atom, FALSE,
+    [Var |-> Ch("deref", 0), ObjectOperatorTkn |-> TkG("->", "R"), Method |-> IdentRes, OpenParenthesisTkn |-> Tk("("), Args |-> Args, CloseParenthesisTkn |-> Tk(")")]),
+  V("ExprStaticCall/reserved", "ExprStaticCall", {"expr", "deref"}, "7", L.atom, FALSE,
+    [Class |-> Ch("name", 0), DoubleColonTkn |-> Tk("::"), Call |-> IdentRes, OpenParenthesisTkn |-> Tk("("), Args |-> Args, CloseParenthesisTkn |-> Tk(")")]),
+  V("ExprClassConstFetch/reserved", "ExprClassConstFetch", {"expr", "scalar"}, "7", L.atom, FALSE,
+    [Class |-> Ch("name", 0), DoubleColonTkn |-> Tk("::"), Const |-> IdentRes]),
+  V("StmtClassMethod/reserved", "StmtClassMethod", {"member"}, "7", 0, TRUE,
+    [Modifiers |-> SqS(<<Mod("public")>>, "", ""), FunctionTkn |-> Tk("function"), Name |-> IdentRes, OpenParenthesisTkn |-> Tk("("), CloseParenthesisTkn |-> Tk(")"), Stmt |-> MethodBody]),
+  V("StmtConstant/reserved", "StmtConstant", {"classconstdecl"}, "7", 0, FALSE, [Name |-> IdentRes, EqualTkn |-> Tk("="), Expr |-> Ch("scalar", 0)]),
+  V("StmtClassConstList/reserved", "StmtClassConstList", {"member"}, "7", 0, FALSE,
+    [ConstTkn |-> Tk("const"), Consts |-> Ls("classconstdecl", 1, 2, "SeparatorTkns", ",", "no"), SemiColonTkn |-> Tk(";")]),
+  \* member access on things other than names and plain variables
+  V("ExprClassConstFetch/varclass", "ExprClassConstFetch", {"expr"}, "both", L.atom, TRUE, [Class |-> SimpleVar, DoubleColonTkn |-> Tk("::"), Const |-> Ident("IDENT")]),
+  V("ExprStaticCall/varname", "ExprStaticCall", {"expr", "deref"}, "both", L.atom, FALSE,
+    [Class |-> Ch("name", 0), DoubleColonTkn |-> Tk("::"), Call |-> SimpleVar, OpenParenthesisTkn |-> Tk("("), Args |-> Args, CloseParenthesisTkn |-> Tk(")")]),
+  V("ExprStaticCall/curly", "ExprStaticCall", {"expr", "deref"}, "both", L.atom, FALSE,
+    [Class |-> Ch("name", 0), DoubleColonTkn |-> Tk("::"), OpenCurlyBracketTkn |-> Tk("{"), Call |-> Ch("expr", 0), CloseCurlyBracketTkn |-> Tk("}"),
+     OpenParenthesisTkn |-> Tk("("), Args |-> Args, CloseParenthesisTkn |-> Tk(")")]),
+  V("ExprArrayDimFetch/curly", "ExprArrayDimFetch", {"expr", "var", "deref"}, "both", L.atom, FALSE,
+    [Var |-> Ch("propchain", 0), OpenBracketTkn |-> Tk("{"), Dim |-> Ch("expr", 0), CloseBracketTkn |-> Tk("}")]),
+  V("ExprArrayDimFetch/const", "ExprArrayDimFetch", {"expr"}, "both", L.atom, FALSE,
+    [Var |-> Nd("ExprConstFetch", [Const |-> Ch("name", 0)]), OpenBracketTkn |-> Tk("["), Dim |-> Ch("expr", 0), CloseBracketTkn |-> Tk("]")]),
+  \* PHP 7: any parenthesised expression can be dereferenced or called
+  V("ExprArrayDimFetch/paren", "ExprArrayDimFetch", {"expr", "deref"}, "7", L.atom, FALSE,
+    [Var |-> Nd("ExprBrackets", [OpenParenthesisTkn |-> Tk("("), Expr |-> Ch("expr", 0), CloseParenthesisTkn |-> Tk(")")]),
+     OpenBracketTkn |-> Tk("["), Dim |-> Ch("expr", 0), CloseBracketTkn |-> Tk("]")]),
+  V("ExprFunctionCall/paren", "ExprFunctionCall", {"expr", "deref"}, "7", L.atom, FALSE,
+    [Function |-> Nd("ExprBrackets", [OpenParenthesisTkn |-> Tk("("), Expr |-> Ch("expr", 0), CloseParenthesisTkn |-> Tk(")")]),
+     OpenParenthesisTkn |-> Tk("("), Args |-> Args, CloseParenthesisTkn |-> Tk(")")]),
+  V("ExprFunctionCall/string", "ExprFunctionCall", {"expr", "deref"}, "7", L.atom, FALSE,
+    [Function |-> Nd("ScalarString", [StringTkn |-> Tk("SQSTR"), Value |-> Vl("StringTkn")]), OpenParenthesisTkn |-> Tk("("), Args |-> Args, CloseParenthesisTkn |-> Tk(")")]),
+  \* (new A)->m()  - both grammars (an expression, not a variable, before PHP 7: it cannot be dereferenced further in unset() etc.)
+  V("ExprMethodCall/newparen", "ExprMethodCall", {"expr"}, "both", L.atom, FALSE,
+    [Var |-> Nd("ExprBrackets", [OpenParenthesisTkn |-> Tk("("), Expr |-> Nd("ExprNew", [NewTkn |-> Tk("new"), Class |-> Ch("name", 0)]), CloseParenthesisTkn |-> Tk(")")]),
+     ObjectOperatorTkn |-> Tk("->"), Method |-> Ident("IDENT"), OpenParenthesisTkn |-> Tk("("), Args |-> Args, CloseParenthesisTkn |-> Tk(")")]),
+  V("ExprPropertyFetch/newparen", "ExprPropertyFetch", {"expr"}, "both", L.atom, FALSE,
+    [Var |-> Nd("ExprBrackets", [OpenParenthesisTkn |-> Tk("("), Expr |-> Nd("ExprNew", [NewTkn |-> Tk("new"), Class |-> Ch("name", 0), OpenParenthesisTkn |-> Tk("("), Args |-> Args,
+                                                                                   CloseParenthesisTkn |-> Tk(")")]), CloseParenthesisTkn |-> Tk(")")]),
+     ObjectOperatorTkn |-> Tk("->"), Prop |-> Ident("IDENT")]),
+  \* more class references
+  V("ExprStaticPropertyFetch/classref2", "ExprStaticPropertyFetch", {"classref"}, "both", L.atom, TRUE, [Class |-> Ch("name", 0), DoubleColonTkn |-> Tk("::"), Prop |-> SimpleVar]),
+  V("ExprArrayDimFetch/classref", "ExprArrayDimFetch", {"classref"}, "both", L.atom, FALSE,
+    [Var |-> SimpleVar, OpenBracketTkn |-> Tk("["), Dim |-> Ch("expr", 0), CloseBracketTkn |-> Tk("]")]),
+  \* statements
+  V("StmtContinue/expr", "StmtContinue", {"stmt", "closed"}, "both", 0, TRUE,
+    [ContinueTkn |-> Tk("continue"), Expr |-> Nd("ScalarLnumber", [NumberTkn |-> Tk("LNUM"), Value |-> Vl("NumberTkn")]), SemiColonTkn |-> Tk(";")]),
+  V("StmtGlobal/varvar", "StmtGlobal", {"stmt", "closed"}, "both", 0, FALSE,
+    [GlobalTkn |-> Tk("global"), Vars |-> SqS(<<SimpleVar, VarOf(SimpleVar),
+                                               Nd("ExprVariable", [DollarTkn |-> TkG("$", "R"), OpenCurlyBracketTkn |-> Tk("{"), Name |-> Ch("expr", 0), CloseCurlyBracketTkn |-> Tk("}")])>>,
+                                             "SeparatorTkns", ","), SemiColonTkn |-> Tk(";")]),
+  V("StmtSwitch/altleadsemi", "StmtSwitch", {"stmt", "closed"}, "both", 0, FALSE,
+    [SwitchTkn |-> Tk("switch"), OpenParenthesisTkn |-> Tk("("), Cond |-> Ch("expr", 0), CloseParenthesisTkn |-> Tk(")"),
+     ColonTkn |-> Tk(":"), CaseSeparatorTkn |-> Tk(";"), Cases |-> Ls("case", 0, 2, "", "", "no"), EndSwitchTkn |-> Tk("endswitch"), SemiColonTkn |-> Tk(";")]),
+  V("StmtTry/many", "StmtTry", {"stmt", "closed"}, "both", 0, FALSE,
+    [TryTkn |-> Tk("try"), OpenCurlyBracketTkn |-> Tk("{"), Stmts |-> Ls("inner", 0, 1, "", "", "no"), CloseCurlyBracketTkn |-> Tk("}"),
+     Catches |-> Ls("catch", 3, 4, "", "", "no")]),
+  \* use declarations with a leading separator; group use with a trailing comma (7.2)
+  V("StmtUse/lead", "StmtUse", {"useclauseL"}, "both", 0, TRUE, [NsSeparatorTkn |-> TkG("\\", "R"), Use |-> Ch("plainname", 0)]),
+  V("StmtUse/plainL", "StmtUse", {"useclauseL"}, "both", 0, TRUE, [Use |-> Ch("plainname", 0)]),
+  V("StmtUseList/lead", "StmtUseList", {"toponly", "nsitem"}, "both", 0, TRUE,
+    [UseTkn |-> Tk("use"), Uses |-> Ls("useclauseL", 1, 3, "SeparatorTkns", ",", "no"), SemiColonTkn |-> Tk(";")]),
+  V("StmtUseList/leadfunction", "StmtUseList", {"toponly", "nsitem"}, "both", 0, TRUE,
+    [UseTkn |-> Tk("use"), Type |-> Mod("function"), Uses |-> Ls("useclauseL", 1, 2, "SeparatorTkns", ",", "no"), SemiColonTkn |-> Tk(";")]),
+  V("StmtUseList/leadconst", "StmtUseList", {"toponly", "nsitem"}, "both", 0, TRUE,
+    [UseTkn |-> Tk("use"), Type |-> Mod("const"), Uses |-> Ls("useclauseL", 1, 2, "SeparatorTkns", ",", "no"), SemiColonTkn |-> Tk(";")]),
+  V("StmtUse/leadalias", "StmtUse", {"useclauseL"}, "both", 0, TRUE,
+    [NsSeparatorTkn |-> TkG("\\", "R"), Use |-> Ch("plainname", 0), AsTkn |-> Tk("as"), Alias |-> Ident("IDENT")]),
+  V("StmtUseList/const3", "StmtUseList", {"toponly", "nsitem"}, "both", 0, TRUE,
+    [UseTkn |-> Tk("use"), Type |-> Mod("const"), Uses |-> Ls("useclause", 2, 3, "SeparatorTkns", ",", "no"), SemiColonTkn |-> Tk(";")]),
+  V("StmtGroupUseList/trailing", "StmtGroupUseList", {"toponly", "nsitem"}, "7", 0, TRUE,
+    [UseTkn |-> Tk("use"), Prefix |-> Ch("plainname", 0), NsSeparatorTkn |-> TkG("\\", "LR"), OpenCurlyBracketTkn |-> TkG("{", "L"),
+     Uses |-> Ls("groupclause", 1, 2, "SeparatorTkns", ",", "yes"), CloseCurlyBracketTkn |-> Tk("}"), SemiColonTkn |-> Tk(";")]),
+  V("StmtGroupUseList/leadmixed", "StmtGroupUseList", {"toponly", "nsitem"}, "7", 0, TRUE,
+    [UseTkn |-> Tk("use"), LeadingNsSeparatorTkn |-> TkG("\\", "R"), Prefix |-> Ch("plainname", 0), NsSeparatorTkn |-> TkG("\\", "LR"), OpenCurlyBracketTkn |-> TkG("{", "L"),
+     Uses |-> Ls("groupclause", 1, 2, "SeparatorTkns", ",", "opt"), CloseCurlyBracketTkn |-> Tk("}"), SemiColonTkn |-> Tk(";")]),
+  \* a file made of bracketed namespaces only
+  V("StmtNamespace/bracedonly", "StmtNamespace", {"nsonly"}, "both", 0, TRUE,
+    [NsTkn |-> Tk("namespace"), Name |-> Ch("plainname", 0), OpenCurlyBracketTkn |-> Tk("{"), Stmts |-> Ls("nsitem", 0, 3, "", "", "no"), CloseCurlyBracketTkn |-> Tk("}")]),
+  V("StmtNamespace/globalonly", "StmtNamespace", {"nsonly"}, "both", 0, TRUE,
+    [NsTkn |-> Tk("namespace"), OpenCurlyBracketTkn |-> Tk("{"), Stmts |-> Ls("nsitem", 0, 3, "", "", "no"), CloseCurlyBracketTkn |-> Tk("}")]),
+  \* array unpacking (7.4), trait alias to a reserved word
+  V("ExprArrayItem/spread", "ExprArrayItem", {"arrayitem"}, "7", 0, FALSE, [EllipsisTkn |-> Tk("..."), Val |-> Ch("expr", L.yield)]),
+  \* constant expressions (5.6): operators in defaults, constants and static initialisers
+  StaticBin("static/plus", "ExprBinaryPlus", "+", L.add), StaticBin("static/minus", "ExprBinaryMinus", "-", L.add), StaticBin("static/concat", "ExprBinaryConcat", ".", L.add),
+  StaticBin("static/mul", "ExprBinaryMul", "*", L.mul), StaticBin("static/div", "ExprBinaryDiv", "/", L.mul), StaticBin("static/mod", "ExprBinaryMod", "%", L.mul),
+  StaticBin("static/bitor", "ExprBinaryBitwiseOr", "|", L.bitor), StaticBin("static/bitand", "ExprBinaryBitwiseAnd", "&", L.bitand), StaticBin("static/bitxor", "ExprBinaryBitwiseXor", "^", L.bitxor),
+  StaticBin("static/shl", "ExprBinaryShiftLeft", "<<", L.shift), StaticBin("static/shr", "ExprBinaryShiftRight", ">>", L.shift),
+  StaticBin("static/lor", "ExprBinaryLogicalOr", "or", L.lor), StaticBin("static/lxor", "ExprBinaryLogicalXor", "xor", L.lxor), StaticBin("static/land", "ExprBinaryLogicalAnd", "and", L.land),
+  StaticBin("static/bor", "ExprBinaryBooleanOr", "||", L.bor), StaticBin("static/band", "ExprBinaryBooleanAnd", "&&", L.band),
+  StaticBinN("static/eq", "ExprBinaryEqual", "==", L.eq), StaticBinN("static/neq", "ExprBinaryNotEqual", "!=", L.eq), StaticBinN("static/ident", "ExprBinaryIdentical", "===", L.eq),
+  StaticBinN("static/nident", "ExprBinaryNotIdentical", "!==", L.eq), StaticBinN("static/lt", "ExprBinarySmaller", "<", L.cmp), StaticBinN("static/gt", "ExprBinaryGreater", ">", L.cmp),
+  StaticBinN("static/le", "ExprBinarySmallerOrEqual", "<=", L.cmp), StaticBinN("static/ge", "ExprBinaryGreaterOrEqual", ">=", L.cmp),
+  V("static/pow", "ExprBinaryPow", {"scalar"}, "both", L.pow, FALSE, [Left |-> Ch("scalar", L.pow + 1), OpTkn |-> Tk("**"), Right |-> Ch("scalar", L.pow)]),
+  V("static/not", "ExprBooleanNot", {"scalar"}, "both", L.not, FALSE, [ExclamationTkn |-> Tk("!"), Expr |-> Ch("scalar", L.not)]),
+  V("static/bitnot", "ExprBitwiseNot", {"scalar"}, "both", L.unary, FALSE, [TildaTkn |-> Tk("~"), Expr |-> Ch("scalar", L.unary)]),
+  V("static/uminus", "ExprUnaryMinus", {"scalar"}, "both", L.unary, FALSE, [MinusTkn |-> Tk("-"), Expr |-> Ch("scalar", L.unary)]),
+  V("static/uplus", "ExprUnaryPlus", {"scalar"}, "both", L.unary, FALSE, [PlusTkn |-> Tk("+"), Expr |-> Ch("scalar", L.unary)]),
+  V("static/ternary", "ExprTernary", {"scalar"}, "both", L.ternary, FALSE,
+    [Cond |-> Ch("scalar", L.ternary), QuestionTkn |-> Tk("?"), IfTrue |-> Ch("scalar", L.ternary), ColonTkn |-> Tk(":"), IfFalse |-> Ch("scalar", L.ternary + 1)]),
+  V("static/shortternary", "ExprTernary", {"scalar"}, "both", L.ternary, FALSE,
+    [Cond |-> Ch("scalar", L.ternary), QuestionTkn |-> TkG("?", "R"), ColonTkn |-> Tk(":"), IfFalse |-> Ch("scalar", L.ternary + 1)]),
+  V("static/brackets", "ExprBrackets", {"scalar"}, "both", L.atom, FALSE, [OpenParenthesisTkn |-> Tk("("), Expr |-> Ch("scalar", 0), CloseParenthesisTkn |-> Tk(")")]),
+  V("static/dim", "ExprArrayDimFetch", {"scalar"}, "both", L.atom, FALSE,
+    [Var |-> Nd("ExprConstFetch", [Const |-> Ch("name", 0)]), OpenBracketTkn |-> Tk("["), Dim |-> Ch("scalar", 0), CloseBracketTkn |-> Tk("]")]),
+  \* string interpolation: "$a->b", "${name}", "${expr}"; negative offsets (7.1)
+  V("ScalarEncapsed/prop", "ScalarEncapsed", {"expr"}, "both", L.atom, TRUE,
+    [OpenQuoteTkn |-> TkG("\"", "R"),
+     Parts |-> Sq(<<StrText, Nd("ExprPropertyFetch", [Var |-> StrVar, ObjectOperatorTkn |-> TkG("->", "LR"), Prop |-> VarName]), StrText>>),
+     CloseQuoteTkn |-> TkG("\"", "L")]),
+  V("ScalarEncapsed/dollarcurly", "ScalarEncapsed", {"expr"}, "both", L.atom, TRUE,
+    [OpenQuoteTkn |-> TkG("\"", "R"),
+     Parts |-> Sq(<<EncVar([DollarOpenCurlyBracketTkn |-> TkG("${", "LR"), Name |-> VarName, CloseCurlyBracketTkn |-> TkG("}", "R")]), StrText>>),
+     CloseQuoteTkn |-> TkG("\"", "L")]),
+  V("ScalarEncapsed/dollarcurlyexpr", "ScalarEncapsed", {"expr"}, "both", L.atom, FALSE,
+    [OpenQuoteTkn |-> TkG("\"", "R"),
+     Parts |-> Sq(<<StrText, EncVar([DollarOpenCurlyBracketTkn |-> TkG("${", "L"), Name |-> Ch("parenfree", 0), CloseCurlyBracketTkn |-> TkG("}", "R")])>>),
+     CloseQuoteTkn |-> TkG("\"", "L")]),
+  V("parenfree/call", "ExprFunctionCall", {"parenfree"}, "both", L.atom, TRUE,
+    [Function |-> Nd("Name", [Parts |-> Sq(<<NamePartN>>)]), OpenParenthesisTkn |-> Tk("("), Args |-> Args, CloseParenthesisTkn |-> Tk(")")]),
+  V("parenfree/var", "ExprVariable", {"parenfree"}, "both", L.atom, TRUE, [Name |-> Ident("VAR")]),
+  V("ScalarEncapsed/idxneg", "ScalarEncapsed", {"expr"}, "7", L.atom, TRUE,
+    [OpenQuoteTkn |-> TkG("\"", "R"),
+     Parts |-> Sq(<<StrDim(Nd("ExprUnaryMinus", [MinusTkn |-> TkG("-", "LR"), Expr |-> IdxNum])), StrText>>),
+     CloseQuoteTkn |-> TkG("\"", "L")])
+>>
+
+Variants == Binaries \o Assigns \o Unaries \o Atoms \o Others \o Statements \o More \o Heredocs \o Decls \o More2 \o More3
 
 \* the root: a file is a statement list (the harness prefixes the open tag as free-floating text of the first token)
 RootFill == [Stmts |-> Ls("top", 0, 3, "", "", "no")]
